@@ -250,6 +250,8 @@ func (r *renderer) expr(e Expr, min int) []Tok {
 		return []Tok{{S: q, K: TStr}}
 	case *Var:
 		return []Tok{r.nameTok(v.Name)}
+	case *RawStr:
+		return []Tok{{S: v.Src, K: TStr}}
 	case *Grp:
 		saved := r.mapCtx
 		r.mapCtx = 0
@@ -695,6 +697,9 @@ func Layout(lines []Line, pol *Policy) (string, LineMap) {
 					s = "`" + t.S + "`"
 				}
 				b.WriteString(s)
+				if t.K == TStr {
+					phys += countLineBreaks(s)
+				}
 				switch t.S {
 				case "（", "【", "{":
 					depth++
@@ -723,6 +728,21 @@ func Layout(lines []Line, pol *Policy) (string, LineMap) {
 func commaAllowed(prev, t Tok) bool {
 	isComma := func(x Tok) bool { return x.S == "，" || x.S == "," }
 	return !isComma(prev) && !isComma(t)
+}
+
+// countLineBreaks - physical line breaks inside a token (CR, LF, CRLF and LFCR each count once)
+func countLineBreaks(s string) int {
+	n := 0
+	rs := []rune(s)
+	for i := 0; i < len(rs); i++ {
+		if rs[i] == '\r' || rs[i] == '\n' {
+			n++
+			if i+1 < len(rs) && (rs[i+1] == '\r' || rs[i+1] == '\n') && rs[i+1] != rs[i] {
+				i++
+			}
+		}
+	}
+	return n
 }
 
 func backtickable(s string) bool {
